@@ -168,7 +168,11 @@ func checkC03(job *Job, res *Result) {
 			in.Stop()
 			kStop := len(vos.Log)
 			// (b) clean restart
-			in2 := x.Start("L2", dir, 9002, nil)
+			in2, serr := x.TryStart("L2", dir, 9002, nil)
+			if serr != nil {
+				viol("restart-fails:"+cmdName, fmt.Sprintf("the server does not start on its own data directory after a clean stop: %v", serr))
+				return
+			}
 			c2 := x.Dial(in2.Addr)
 			d2 := fullDump(c2)
 			c2.Close()
